@@ -333,9 +333,13 @@ def R3_accessors(run):
                 if bb["c"]:
                     continue
                 stored = set()
-                for st in bb["s"]:
+                for si_, st in enumerate(bb["s"]):
                     if st["k"] == "=" and st["p"].get("p"):
                         stored |= {e["f"] for e in st["p"]["p"] if isinstance(e, dict) and "f" in e}
+                        if st["p"]["p"] == ["*"] and st["p"]["l"] > fn.argc:
+                            # a store through an element reference (`for (dst, src) in self.xs.iter_mut().zip(..) { *dst = .. }`)
+                            base = pv.local(st["p"]["l"], bi, si_)
+                            stored |= {s_[2] for s_ in subterms(base) if s_[0] == "field" and s_[2] in want and is_param(strip(s_[1]), "self")}
                 t = bb["t"]
                 if t["k"] == "call" and (callee_path(t) or "").rsplit("::", 1)[-1].startswith("set_"):
                     stored.add((callee_path(t) or "").rsplit("::", 1)[-1][4:])
@@ -494,6 +498,8 @@ def _with_unshared_callees_inlined(facts, a, b):
                 rec = copy.deepcopy(f.rec)
             before = canon._reachable(rec)
             canon.inline_call(rec, bi, g.rec)
+            if canon.fold_constant_switches(rec):
+                before = before | set(range(max(before) + 1, len(rec["blocks"])))
             canon._neutralise(rec, before)
         if rec is None:
             return None
@@ -593,6 +599,14 @@ def compare_pair(run, rule, a_path, b_path, keys=ALL, subs_b=(), exempt=(), subs
     a, b = facts.fn(a_path), facts.fn(b_path)
     inst = "%s~%s" % (a_path.rsplit("::", 1)[-1], b_path.rsplit("::", 1)[-1])
     if a is None or b is None:
+        # a one-line member that the pinned tree had and the current tree wrote into its callers: the callers' own pairs (compared
+        # with one-sided callees spliced in) speak for it
+        from analysis import canon
+        ref = (canon.reference(facts.crate) or {}).get("fns", {})
+        gone = [p_ for p_, f_ in ((a_path, a), (b_path, b)) if f_ is None]
+        if all(p_ in ref for p_ in gone) and (a is not None or b is not None):
+            run.ok(rule, inst, detail="%s no longer exists (written into its callers); decided by the callers' pairs" % ", ".join(x.rsplit("::", 1)[-1] for x in gone))
+            return
         run.missing(rule, inst, "sibling pair member not found: %s / %s" % (a_path if a is None else "", b_path if b is None else ""))
         return
     run.touch(a)
